@@ -78,9 +78,18 @@ def standard(ck, pid, stmt, proof_files, mode, rule):
 
 def replay(mode):
     def f(path):
-        print(open(path).read()[:4000])
-        rc, so, se = vlib.run_impl_script("helix_impl.py", [mode, 1, "quick", "-"], timeout=1500)
+        txt = open(path).read()
+        print(txt[:4000])
+        rp = json.loads(txt)
+        # every random choice of the search derives from (seed, tier): the same pair regenerates the same inputs in the same order
+        seed, tier = rp.get("seed", 1), rp.get("tier", "quick")
+        rc, so, se = vlib.run_impl_script("helix_impl.py", [mode, seed, tier, "-"], timeout=3000)
         r = json.loads(so)
-        print("current:", [v["key"] for v in r["violations"]])
-        return 1 if r["violations"] else 0
+        keys = [v["key"] for v in r["violations"]]
+        print("current tree, same seed/tier:", keys)
+        if rp.get("key") in keys:
+            v = next(v for v in r["violations"] if v["key"] == rp["key"])
+            print("reproduced:", v["what"], json.dumps(v["input"])[:600])
+            return 1
+        return 1 if keys else 0
     return f
